@@ -16,6 +16,7 @@ import (
 // opcodes: 1301 mtu xobustream        AV1Payloader.Payload
 //          1302 [payloads...]          one AV1Depacketizer receiver
 //          1303 [payloads...]          AV1Packet per payload + one frame.AV1 assembler
+//          1308 mtu [obus]             OBUs -> low-overhead stream -> AV1Payloader -> both receive paths -> OBUs
 //          1304 v                      WriteToLeb128
 //          1305 xbytes                 ReadLeb128
 //          1306 xbytes                 ParseOBUHeader + Header.Marshal
@@ -138,63 +139,93 @@ func genLayeredOBUs(c *RNG) []av1OBU {
 
 // emitAv1Lossless payloads the OBUs, feeds the packets to AV1Depacketizer and to AV1Packet +
 // frame.AV1, compares both with the OBUs, and emits the payloader case and the two receiver cases.
-func emitAv1Lossless(c *RNG, mtu int, os []av1OBU, emit func(op int, toks ...Tok)) {
-	in := encodeOBUs(os)
-	pk := (&codecs.AV1Payloader{}).Payload(uint16(mtu), append([]byte{}, in...))
-	if mtu >= 2 {
-		fail := ""
-		d := &codecs.AV1Depacketizer{}
-		var got []byte
-		for _, p := range pk {
-			out, err := d.Unmarshal(p)
-			if err != nil {
-				fail = "AV1Depacketizer rejected payloader output: " + err.Error()
-				break
-			}
-			got = append(got, out...)
-		}
-		if fail == "" && !bytes.Equal(got, expectedOBUs(os)) {
-			fail = "AV1Depacketizer output differs from the OBUs that were payloaded"
-		}
-		if fail == "" { // deprecated path
-			f := &frame.AV1{}
-			var got2 []byte
-			for _, p := range pk {
-				ap := &codecs.AV1Packet{}
-				if _, err := ap.Unmarshal(p); err != nil {
-					fail = "AV1Packet rejected payloader output: " + err.Error()
-					break
-				}
-				fr, _ := f.ReadFrames(ap)
-				for _, x := range fr {
-					h, err := obu.ParseOBUHeader(x)
-					if err != nil {
-						fail = "frame assembler returned an unparsable OBU"
-						break
-					}
-					h.HasSizeField = true
-					got2 = append(got2, h.Marshal()...)
-					got2 = append(got2, leb(uint64(len(x)-h.Size()))...)
-					got2 = append(got2, x[h.Size():]...)
-				}
-			}
-			if fail == "" && !bytes.Equal(got2, expectedOBUs(os)) {
-				fail = "AV1Packet + frame.AV1 output differs from the OBUs that were payloaded"
-			}
-		}
-		if fail != "" {
-			pendingFailures = append(pendingFailures, pendingFailure{CaseLine(1301, TI(int64(mtu)), TBytes(in)), fail, ""})
-		}
+// op 1308: mtu [[typ ext tid sid res3 hasSize xpayload]...] - the lossless clause, self-describing:
+// the OBUs are rendered in the low-overhead format (here and, for the model, by Spec/Av1Rtp.v),
+// payloaded, and the packets are fed to AV1Depacketizer and to AV1Packet + frame.AV1; both must
+// give back the OBUs (temporal delimiters and tile lists removed, size fields present).
+func obusTok(os []av1OBU) TList {
+	l := TList{}
+	for _, o := range os {
+		l = append(l, TList{TI(int64(o.typ)), TI(b2i(o.ext)), TI(int64(o.tid)), TI(int64(o.sid)), TI(int64(o.res3)), TI(b2i(o.hasSize)), TBytes(o.payload)})
 	}
-	emit(1301, TI(int64(mtu)), TBytes(in))
+	return l
+}
+
+func obusFromTok(t Tok) []av1OBU {
+	var os []av1OBU
+	for _, x := range tokList(t) {
+		l := tokList(x)
+		os = append(os, av1OBU{typ: int(tokInt(l[0])), ext: tokInt(l[1]) != 0, tid: int(tokInt(l[2])), sid: int(tokInt(l[3])),
+			res3: int(tokInt(l[4])), hasSize: tokInt(l[5]) != 0, payload: tokBytes(l[6])})
+	}
+	return os
+}
+
+func runAv1Lossless(mtu int, os []av1OBU) Outcome {
+	in := encodeOBUs(os)
+	run := registry["C13"].Run
+	o1 := run(1301, []Tok{TI(int64(mtu)), TBytes(in)})
+	pk := (&codecs.AV1Payloader{}).Payload(uint16(mtu), append([]byte{}, in...))
 	ps := TList{}
 	for _, p := range pk {
 		ps = append(ps, TBytes(p))
 	}
-	if len(ps) > 0 {
-		emit(1302, ps)
-		emit(1303, ps)
+	o2 := run(1302, []Tok{ps})
+	o3 := run(1303, []Tok{ps})
+	o := o1
+	o.Impl = L(B(in), o1.Impl, o2.Impl, o3.Impl)
+	o.Nontrivial = len(pk) >= 2
+	for _, x := range []Outcome{o1, o2, o3} {
+		if o.Fail == "" {
+			o.Fail = x.Fail
+		}
 	}
+	if o.Fail != "" || mtu < 2 {
+		return o
+	}
+	d := &codecs.AV1Depacketizer{}
+	var got []byte
+	for _, p := range pk {
+		out, err := d.Unmarshal(append([]byte{}, p...))
+		if err != nil {
+			o.Fail = "AV1Depacketizer rejected payloader output: " + err.Error()
+			return o
+		}
+		got = append(got, out...)
+	}
+	if !bytes.Equal(got, expectedOBUs(os)) {
+		o.Fail = fmt.Sprintf("AV1Depacketizer output differs from the OBUs that were payloaded: got %x want %x", got, expectedOBUs(os))
+		return o
+	}
+	f := &frame.AV1{}
+	var got2 []byte
+	for _, p := range pk {
+		ap := &codecs.AV1Packet{}
+		if _, err := ap.Unmarshal(append([]byte{}, p...)); err != nil {
+			o.Fail = "AV1Packet rejected payloader output: " + err.Error()
+			return o
+		}
+		fr, _ := f.ReadFrames(ap)
+		for _, x := range fr {
+			h, err := obu.ParseOBUHeader(x)
+			if err != nil {
+				o.Fail = "frame assembler returned an unparsable OBU"
+				return o
+			}
+			h.HasSizeField = true
+			got2 = append(got2, h.Marshal()...)
+			got2 = append(got2, leb(uint64(len(x)-h.Size()))...)
+			got2 = append(got2, x[h.Size():]...)
+		}
+	}
+	if !bytes.Equal(got2, expectedOBUs(os)) {
+		o.Fail = "AV1Packet + frame.AV1 output differs from the OBUs that were payloaded"
+	}
+	return o
+}
+
+func emitAv1Lossless(c *RNG, mtu int, os []av1OBU, emit func(op int, toks ...Tok)) {
+	emit(1308, TI(int64(mtu)), obusTok(os))
 }
 
 func genOBUs(c *RNG, mtu int) []av1OBU {
@@ -330,6 +361,8 @@ func init() {
 			o.Nontrivial = len(frags) >= 2
 			o.Tags = []string{"av1pay packets " + sizeBucket(len(frags))}
 			return o
+		case 1308:
+			return runAv1Lossless(int(tokInt(toks[0])), obusFromTok(toks[1]))
 		case 1307: // nhist [payloads]: history then an intact frame (C15)
 			var ps [][]byte
 			for _, t := range tokList(toks[1]) {
